@@ -12,7 +12,7 @@ RULE = ('opacity tables of 2-200 rows in increasing wavelength covering 0.55 mic
         'and at 0.55 micron; wavelengths of table and queries in micron / cm / nm / Angstrom independently, opacities in cm2/g or m2/kg; the law used directly, after pickling, '
         'after to_table/from_table, and after from_file with a column selection; in half of the direct cases the same object first held other opacities and/or wavelengths, was evaluated, and was then given the table (history). non-trivial = at least one query strictly inside and one outside the table.')
 EXHAUSTIVE = {'quick': False, 'thorough': False}
-ASSUMPTIONS = ['np.interp is an exact piecewise-linear interpolant up to rounding (tolerance 1e-9)',
+ASSUMPTIONS = ['np.interp is an exact piecewise-linear interpolant up to rounding: relative tolerance 1e-9 + 2e-15 x (condition number of chi at the query + at 0.55 micron), since table and query wavelengths are converted between units in floating point and steep table segments amplify that',
                'a query on an end node expressed in another unit than the table is an inside/outside tie after conversion and is not compared (near-tie filter); in the table\'s own unit end nodes are compared exactly']
 
 WUNITS = {'micron': 1.0, 'cm': 1e-4, 'nm': 1e3, 'Angstrom': 1e4}
@@ -108,6 +108,15 @@ def judge(case, im, mo):
         for i in range(len(xs) - 1):
             if xs[i] <= t <= xs[i + 1]:
                 return cs[i] + (t - xs[i]) * (cs[i + 1] - cs[i]) / (xs[i + 1] - xs[i])
+    def cond(t):
+        """relative condition number of chi at t: a relative perturbation d of t (unit conversions of table and query round) moves chi(t) by cond * d"""
+        worst = 0.0
+        for i in range(len(xs) - 1):
+            if xs[i] <= t <= xs[i + 1]:        # a query on a node may land in either neighbouring segment after rounding
+                c = chi_at(t)
+                worst = max(worst, float(abs(t) * abs(cs[i + 1] - cs[i]) / ((xs[i + 1] - xs[i]) * abs(c))) if c != 0 else math.inf)
+        return worst
+    cond_v = cond(F(0.55))
     inside = outside = False
     same_unit = case['wunit'] == case['qunit']
     for t, got, want in zip(case['queries'], im['av'], m):
@@ -117,7 +126,8 @@ def judge(case, im, mo):
             continue
         if near_end and not same_unit:
             continue
-        if not close(got, want, 1e-9, 1e-12):
+        rtol = 1e-9 + 2e-15 * (cond(F(t)) + cond_v)       # wavelengths pass through up to four unit conversions before np.interp
+        if not close(got, want, rtol, 1e-12):
             disagree.append('A_V pattern at %r micron: implementation %r, model %r' % (t, got, float(want)))
         tt = F(t)
         if tt < xs[0] or tt > xs[-1]:
@@ -126,7 +136,7 @@ def judge(case, im, mo):
         else:
             inside = inside or (xs[0] < tt < xs[-1])
             doc = Fraction(-4, 10) * chi_at(tt) / chi_at(F(0.55))
-        if abs(F(got) - doc) > Fraction(1, 10 ** 9) * (abs(doc) + Fraction(1, 1000)):
+        if abs(F(got) - doc) > F(rtol) * (abs(doc) + Fraction(1, 1000)):
             fail.append('law: at %r micron the pattern is %r; -0.4 chi/chi_V (0 outside the table) is %r' % (t, got, float(doc)))
     if abs(im['av_v'] + 0.4) > 1e-12:
         fail.append('normalisation: the pattern at 0.55 micron is %r, not -0.4' % im['av_v'])
